@@ -6,8 +6,9 @@ EXTENDS BigBedSpec, Json
 CONSTANTS AnyOrder, MinItems, NC, L, MaxItems, MaxPerChrom, IPS, ZoomLists, EndSlack
 VARIABLES input, cur, pos, nIn, done, ips, zl
 vars == <<input, cur, pos, nIn, done, ips, zl>>
+AscZ(z) == IF Len(z) = 2 /\ z[1] > z[2] THEN <<z[2], z[1]>> ELSE z
 ZL == CASE ZoomLists = "a" -> {<<>>, <<2>>, <<3>>, <<2, 4>>}
-        [] ZoomLists = "b" -> {<<2>>, <<3>>, <<2, 5>>, <<4>>}
+        [] ZoomLists = "b" -> {<<2>>, <<3>>, <<2, 5>>, <<5, 2>>}     \* a manual list need not be ascending: the file lists its levels ascending
         [] ZoomLists = "c" -> {<<>>, <<2>>}
 Init == /\ input = <<>> /\ cur = 0 /\ pos = 0 /\ nIn = 0 /\ done = FALSE /\ ips \in IPS /\ zl \in ZL
 AddEntry(s, e) ==
@@ -22,7 +23,7 @@ Next == \/ \E s \in pos..(L - 1) : \E e \in s..(L + EndSlack) : AddEntry(s, e)
         \/ Finish
 \* mechanism => abstract, at every complete input
 MechSummaryOK == done => SummaryOKB(input, MechSummary(input))
-MechZoomOK == done => ZoomsOKB(input, ModelZoomsB(input, zl))
+MechZoomOK == done => ZoomsOKB(input, ModelZoomsB(input, AscZ(zl)))
 Emit == done => PrintT(<<"REPLAY", ToJson([items |-> input, ips |-> ips, zooms |-> zl, NC |-> NC, L |-> L, sort |-> IF AnyOrder THEN "start" ELSE "all",
-                                          mz |-> ModelZoomsB(input, zl), msum |-> MechSummary(input)])>>)
+                                          mz |-> ModelZoomsB(input, AscZ(zl)), msum |-> MechSummary(input)])>>)
 =============================================================================
